@@ -390,13 +390,13 @@ def _digest(raws):
     return h.hexdigest()
 
 
-def readonly_calls(ix, driver, salt):
+def readonly_calls(ix, driver, salt, limit=40):
     """(name, thunk) for every read-only request with an argument grid that includes LRUs
     absent from the index, unknown webentities, wrong prefixes, every switch, tokens."""
     t = ix.t
     pool = pool_of(ix, driver)
-    if len(pool) > 40:
-        step = max(1, len(pool) // 40)
+    if len(pool) > limit:
+        step = max(1, len(pool) // limit)
         pool = pool[salt % step::step]
     wes, _ = guarded(lambda: _webentities(ix, salt))
     wes = list(wes or [])
@@ -523,7 +523,7 @@ def answers_digest(ix, driver, salt):
     """One digest of the answers of every read-only request of the C14 grid."""
     import hashlib
     h = hashlib.sha256()
-    for name, fn in readonly_calls(ix, driver, 0):
+    for name, fn in readonly_calls(ix, driver, 0, limit=10):
         val, e = guarded(fn)
         h.update(repr((name, e, _norm(val))).encode("utf-8", "replace"))
     return h.hexdigest()
